@@ -176,6 +176,9 @@ def render(e):
         return "[" + (render(e[1]) if e[1] is not None else "") + "]"
     if k in BINOPS:
         return "(" + render(e[1]) + " " + BINOPS[k][0] + " " + render(e[2]) + ")"
+    if k == "mulf":
+        fl = e[1]
+        return "(" + render(e[2]) + " *" + ("+" if fl & 1 else "") + ("d" if fl & 2 else "") + ("?" if fl & 4 else "") + ("n" if fl & 8 else "") + " " + render(e[3]) + ")"
     if k == "contains":
         return "contains(" + render(e[1]) + ")"
     if k in UNARY:
@@ -236,6 +239,8 @@ def coq_expr(e):
         return "(ECollect %s)" % ("(Some %s)" % coq_expr(e[1]) if e[1] is not None else "None")
     if k in BINOPS:
         return "(EBin %s %s %s)" % (BINOPS[k][1], coq_expr(e[1]), coq_expr(e[2]))
+    if k == "mulf":
+        return "(EBin (OMulF %d) %s %s)" % (e[1], coq_expr(e[2]), coq_expr(e[3]))
     if k == "contains":
         return "(EBin OContains ESelf %s)" % coq_expr(e[1])
     if k in UNARY:
@@ -280,7 +285,7 @@ def ops_of(e, acc=None):
         return acc
     for x in e[1:]:
         if isinstance(x, tuple) and x and isinstance(x[0], str) and (x[0] in NULLARY or x[0] in UNARY or x[0] in BINOPS or x[0] in
-            ("lit", "getkey", "index", "slice", "pipe", "union", "collect", "contains", "unique", "sort", "flatten", "as", "var", "reduce", "assign", "update", "compound", "object", "join", "split")):
+            ("lit", "getkey", "index", "slice", "pipe", "union", "collect", "contains", "unique", "sort", "flatten", "as", "var", "reduce", "assign", "update", "compound", "object", "join", "split", "mulf")):
             ops_of(x, acc)
     return acc
 
@@ -419,6 +424,12 @@ class Gen:
                                ("add", ("self",), ("pipe", ("var", x), ("length",))),
                                ("collect", ("union", ("self",), ("pipe", ("var", x), ("index", ("self",), lit(rng.choice([0, 2]))))))])
             return ("reduce", self.path(d), x, lit(rng.choice([0, "", None])), body)
+        if r < 0.945 and self.doc is not None:
+            # deep merge of two containers of the document (all 16 flag sets)
+            conts = [p for p in doc_paths(self.doc) if isinstance(_get(self.doc, p), (dict, list))]
+            if len(conts) >= 2:
+                a, b = rng.sample(conts, 2)
+                return ("mulf", rng.choice([0, 0, 0, 1, 2, 4, 8, 3, 5, 12, 15]), path_expr(a), path_expr(b))
         if r < 0.955:
             ks = rng.sample(["k", "m", "a", "z"], rng.choice([1, 2, 2, 3]))
             return ("object", [(kk, self.scalar(d - 1, vs)) for kk in ks]) if rng.random() < 0.8 else ("object", [])
